@@ -21,6 +21,7 @@ CONSTANTS
   FixD7 = TRUE
   FixD16 = TRUE
   FixD10a = TRUE
+  FixD20 = TRUE
   Depth = 60
   Gates <- GatesAll
   Shift = 30
